@@ -196,7 +196,13 @@ class IASolverBaseClass:  # pylint: disable=R0902
             arrays).
         """
         if self._full_F is None:
-            self._full_F = self._F * np.sqrt(self.P)
+            # Scale user by user: `self._F` may be a list of arrays (see
+            # set_precoders), for which `self._F * np.sqrt(self.P)` would
+            # broadcast the powers along the last (stream) axis.
+            sqrt_P = np.sqrt(self.P) * np.ones(self.K)
+            self._full_F = np.empty(self.K, dtype=np.ndarray)
+            for k in range(self.K):
+                self._full_F[k] = self._F[k] * sqrt_P[k]
         return self._full_F
 
     # noinspection PyUnresolvedReferences
